@@ -31,6 +31,8 @@ def causes(m):
     c = sorted(set(h for h in hs if h in HREJECT))
     if m["rl"] == "RLbad":
         c.append("RLbad")
+    if m.get("px", "none") != "none":
+        c.append("px=" + m["px"])
     ncl = sum(1 for h in hs if h in CLK)
     ntec = sum(1 for h in hs if h in TEC)
     if ncl > 1:
@@ -116,6 +118,8 @@ def observe(case, variant, cuts, mode="read", source="iter", cfg=None, symcuts=F
     c = cz.concretize(case["ms"], variant, case["cut"])
     if symcuts:
         cuts = [c.spans[k][0] for k in cuts if 0 < k < len(c.spans)]
+    if cfg is None and case["ms"] and case["ms"][0].get("px") in ("on_ok", "on_bad"):
+        cfg = drv.make_cfg(proxy_protocol=True, proxy_allow_ips="*")
     obs = drv.run(bytes(c.data), cuts, cfg=cfg, mode=mode, source=source)
     ev = []
     for r in obs["out"]:
@@ -133,7 +137,7 @@ def rand_cuts(rng, n, k=None):
 
 
 def c01(ctx):
-    fams = ["heads1", "heads2", "chunks", "trunc", "pipeline"] + ([] if ctx.quick else ["heads3"])
+    fams = ["heads1", "heads2", "chunks", "trunc", "pipeline", "proxy"] + ([] if ctx.quick else ["heads3"])
     run_models(ctx, [(f, {"family": f}) for f in fams])
     ctx.coverage["exhaustive"] = True
     ctx.coverage["rule"] = ("TLC: every stream of the families %s x every segmentation into reads of 1..3 "
@@ -468,7 +472,8 @@ def c12(ctx):
     jobs = [("limits_design", dict(family="limits", invariants=None, **small)),
             ("endless_design", dict(family="endless", **small)),
             ("limits_fs0", dict(family="limits", limit_line=3, limit_fields=3, fs=0, default_fs=4)),
-            ("limits_wide", dict(family="limits", maxrecv=16, limit_fields=2, fs=3, default_fs=4))]
+            ("limits_wide", dict(family="limits", maxrecv=16, limit_fields=2, fs=3, default_fs=4)),
+            ("proxy_limits", dict(family="proxy", limit_line=3, limit_fields=3, fs=5, default_fs=4))]
     for j in jobs:
         j[1]["invariants"] = ["FramingExact", "RejectsListed", "CompleteOkDelivered", "FinDetermined",
                               "InOrderNoLossNoDup", "OverLimitRejected", "BufferBounded"]
@@ -476,6 +481,8 @@ def c12(ctx):
     ctx.coverage["exhaustive"] = True
     expect_violation(ctx, "asis_dropped", "OverLimitRejected", family="limits", dev=["DroppedNotCounted"],
                      limit_line=3, limit_fields=2, fs=5, default_fs=4)
+    expect_violation(ctx, "dev_proxyline", "OverLimitRejected", family="proxy", dev=["ProxyLineNoLimit"],
+                     limit_line=3, limit_fields=3, fs=5, default_fs=4)
     expect_violation(ctx, "asis_chunkline", "BufferBounded", family="endless", dev=["UnboundedChunkLine"],
                      invariants=["BufferBounded"], **small)
     expect_violation(ctx, "asis_trailers", "BufferBounded", family="endless", dev=["UnboundedTrailers"],
